@@ -13,7 +13,7 @@ package netann
 //
 //   signature(digest, key)  = vHash("sig", 64, digest, key)           (UF, injective)
 //   Verify(sig, digest, key) <=> sig == vHash("sig", 64, digest, key)
-//   DoubleHashB(data)        = vHash("dsha", 32, len(data) || data padded to 256)   (UF, injective)
+//   DoubleHashB(data)        = vHash("dsha", 32, len(data) || data padded to 192)   (UF, injective)
 //   ParsePubKey(b)           = opaque handle for the 33 bytes b (always succeeds)
 //
 // A signature slot of a message is described by (signer key index, which
@@ -79,33 +79,11 @@ type c20IdealSig struct{ raw [64]byte }
 
 func (s *c20IdealSig) Serialize() []byte { return s.raw[:] }
 
+// Verify: the value verifies iff it is the unaltered signature F(digest, key, no corruption).
 func (s *c20IdealSig) Verify(digest []byte, key *btcec.PublicKey) bool {
-	kb := c20KeyBytes(key)
-	want := vHash("sig", 64, digest, kb)
-	eq := bytes.Equal(want, s.raw[:])
-	// Unforgeability: 64 bytes that verify for (digest, key) were issued by
-	// the signer for exactly (digest, key) and not altered afterwards. Without
-	// this the solver "forges" by choosing the xor mask F(d',k') ^ F(d,k).
-	honest := false
-	for i := range c20Issued {
-		r := &c20Issued[i]
-		honest = honest || (r.clean && bytes.Equal(r.out, s.raw[:]) &&
-			bytes.Equal(r.digest, digest) && bytes.Equal(r.key[:], kb))
-	}
-	vAssume(!eq || honest)
-	return eq
+	want := vHash("sig", 64, digest, c20KeyBytes(key), []byte{0, 0})
+	return bytes.Equal(want, s.raw[:])
 }
-
-// c20Issued records every signature the harness's signers produced in the
-// symbolic run (value on the wire, whether it was left unaltered, for what).
-type c20IssuedSig struct {
-	out    []byte
-	clean  bool
-	digest []byte
-	key    [33]byte
-}
-
-var c20Issued []c20IssuedSig
 
 // vC20ToSignature replaces (*lnwire.Sig).ToSignature: the 64 wire bytes are
 // the signature value.
@@ -140,7 +118,7 @@ func c20KeyBytes(p *btcec.PublicKey) []byte {
 	panic("c20: public key not produced by ParsePubKey")
 }
 
-const c20Pad = 256
+const c20Pad = 192
 
 // vC20DoubleHashB replaces chainhash.DoubleHashB: one collision-free function
 // over byte strings of any length up to c20Pad (the engine's sha256 UF is one
@@ -163,37 +141,35 @@ func c20Ideal() {
 	vReplace("github.com/btcsuite/btcd/chainhash/v2.DoubleHashB", "github.com/lightningnetwork/lnd/netann.vC20DoubleHashB")
 	vInjective("sig")
 	vInjective("dsha")
-	vAssumption("ideal signatures: a 64-byte value verifies for (digest, key) iff it equals F(digest, key) for one collision-free F; natively F is ECDSA with fixed test keys")
+	vAssumption("ideal signatures: wire bytes are F(digest, key, corruption) for one collision-free F; they verify for (d, k) iff they equal F(d, k, none). Natively F is ECDSA under fixed test keys followed by the xor")
 	vAssumption("ideal hash: chainhash.DoubleHashB is one collision-free function of the byte string")
 	vAssumption("ParsePubKey/Sig.ToSignature succeed on every input in the symbolic run; natively a malformed key/signature is an error, which the oracle classes as 'does not verify' as well")
-	vAssumption("unforgeability: bytes that were not issued by the holder of key k for digest d (or were altered afterwards) do not verify for (d, k)")
 	c20KeyTab = nil
-	c20Issued = nil
 }
 
 // c20Sign produces the 64 wire bytes of a signature by test key `signer` over
-// DoubleHashB(data), xored with mask.
-func c20Sign(data []byte, signer uint8, mask []byte) lnwire.Sig {
-	digest := chainhash.DoubleHashB(data)
-	var raw []byte
-	var k [33]byte
+// `digest`, with byte number pos (< 64) xored with val afterwards.
+//
+// Symbolically the wire bytes are F(digest, key, (pos,val)) for ONE injective
+// F: every (digest, key, corruption) gives its own 64-byte value, and only the
+// uncorrupted one verifies (Dolev-Yao: the only values that verify are the
+// ones the key holder issued). Natively F is ECDSA with the test key, xor.
+func c20Sign(digest []byte, signer uint8, pos, val uint8) lnwire.Sig {
+	var out []byte
 	if vNative() {
 		sig := ecdsa.Sign(c20Priv(signer), digest)
 		ws, err := lnwire.NewSigFromSignature(sig)
 		if err != nil {
 			panic(err)
 		}
-		raw = ws.RawBytes()
+		out = append([]byte{}, ws.RawBytes()...)
+		out[pos] ^= val
 	} else {
-		k = c20Pub(signer)
-		raw = vHash("sig", 64, digest, k[:])
-	}
-	out := make([]byte, 64)
-	for i := range out {
-		out[i] = raw[i] ^ mask[i]
-	}
-	if !vNative() {
-		c20Issued = append(c20Issued, c20IssuedSig{out, c20Zero(mask), digest, k})
+		k := c20Pub(signer)
+		if val == 0 {
+			pos = 0 // xor with 0 at any position is "unaltered"
+		}
+		out = vHash("sig", 64, digest, k[:], []byte{pos, val})
 	}
 	s, err := lnwire.NewSigFromWireECDSA(out)
 	if err != nil {
@@ -202,25 +178,17 @@ func c20Sign(data []byte, signer uint8, mask []byte) lnwire.Sig {
 	return s
 }
 
-func c20Zero(b []byte) bool {
-	var acc byte
-	for _, x := range b {
-		acc |= x
-	}
-	return acc == 0
-}
-
 // c20SigSlot is one signature slot of a message: who signed, what, and how the
 // wire bytes were corrupted afterwards.
 type c20SigSlot struct {
-	signer uint8  // index of the test key that produced the signature
-	other  bool   // true: the signer signed the OTHER message (a different one)
-	mask   []byte // xor mask over the 64 wire bytes
+	signer   uint8 // index of the test key that produced the signature
+	other    uint8 // 1: the signer signed the OTHER message (a different one), 0: this one
+	pos, val uint8 // wire byte pos is xored with val
 }
 
 func c20Slot(name string) c20SigSlot {
-	s := c20SigSlot{signer: vU8(name + ".signer"), other: vBool(name + ".other"), mask: vBytes(name+".mask", 64)}
-	vAssume(s.signer < 4)
+	s := c20SigSlot{signer: vU8(name + ".signer"), other: vU8(name + ".other"), pos: vU8(name + ".pos"), val: vU8(name + ".val")}
+	vAssume(s.signer < 4 && s.other < 2 && s.pos < 64)
 	return s
 }
 
@@ -228,26 +196,27 @@ func c20Slot(name string) c20SigSlot {
 // this message and not altered since.
 func (s c20SigSlot) authentic(key [33]byte) bool {
 	k := c20Pub(s.signer)
-	return !s.other && c20Zero(s.mask) && bytes.Equal(k[:], key[:])
+	return s.other == 0 && s.val == 0 && bytes.Equal(k[:], key[:])
 }
 
-func (s c20SigSlot) make(this, other []byte) lnwire.Sig {
-	data := this
-	if s.other {
-		data = other
+func (s c20SigSlot) make(dThis, dOther []byte) lnwire.Sig {
+	m := -s.other // 0x00 or 0xff
+	d := make([]byte, 32)
+	for i := range d {
+		d[i] = dThis[i]&^m | dOther[i]&m
 	}
-	return c20Sign(data, s.signer, s.mask)
+	return c20Sign(d, s.signer, s.pos, s.val)
 }
 
-// c20Key is a key field of a message: one of the test keys xor a 33-byte mask
-// (so: any 33 bytes, written relative to a key we can sign for).
+// c20Key is a key field of a message: one of the test keys with byte number
+// pos xored with val (a single-byte corruption; val == 0: a genuine key).
 func c20Key(name string) [33]byte {
-	i := vU8(name + ".idx")
-	vAssume(i < 4)
+	i, pos, val := vU8(name+".idx"), vU8(name+".pos"), vU8(name+".val")
+	vAssume(i < 4 && pos < 33)
 	k := c20Pub(i)
-	m := vBytes(name+".mask", 33)
 	for j := range k {
-		k[j] ^= m[j]
+		hit := byte((uint16(uint8(j)^pos) - 1) >> 8) // 0xff iff j == pos
+		k[j] ^= val & hit
 	}
 	return k
 }
@@ -378,7 +347,7 @@ func VerifC20ChanAnn() {
 	// "other" means a different message: it differs in at least one field.
 	vAssume(!c20AnnSame(a, o))
 
-	this, other := c20AnnRef(a), c20AnnRef(o)
+	this, other := chainhash.DoubleHashB(c20AnnRef(a)), chainhash.DoubleHashB(c20AnnRef(o))
 	var slot [4]c20SigSlot
 	for k := 0; k < 4; k++ {
 		slot[k] = c20Slot(names[k] + ".sig")
